@@ -11,7 +11,7 @@
     widening (neighbouring code of package bitmap):
     [bitmap.Mask]       [i]            any int i                -> [Mask[i]; RMask[i]]           (P outside 0..64)
     [bitmap.Bit]        [i]            any int i                -> [MaskUpto[i]; RMaskUpto[i]; Bit[i]; RBit[i]]  (P outside 0..63)
-    [bitmap.Fmt]        [sz; signed; slice; xs]  Fmt of one integer (slice = 0, xs = [x]) or of a slice of integers of
+    [bitmap.Fmt/c12]      [sz; signed; slice; xs]  Fmt of one integer (slice = 0, xs = [x]) or of a slice of integers of
                                        sz bytes (1,2,4,8; signed only tells the harness which Go type to build);
                                        any other sz = a non-integer type (string / []string)  -> the string (P = panic)
     [bitmap.Of/query]   [ps; opt; tr; i; e]   r = Of(ps, opt...), 0 <= i <= e <= 64 len(r), i < 64 len(r), 1 <= e
@@ -27,7 +27,7 @@
                                           else [0; OfMany; Words; Offset] *)
 From Coq Require Import ZArith List Bool String.
 From Low Require Import Lib.Bits Lib.BitSeq Lib.Val Model.BuilderOps Model.BitmapOf Spec.OfSpec
-  Model.BitmapMask Spec.MaskSpec Model.BitmapFmt Spec.FmtSpec
+  Model.BitmapMask12 Spec.MaskSpec12 Model.BitmapFmt12 Spec.FmtSpec12
   Model.Rank Model.BitmapNext Spec.OfQuerySpec.
 Import ListNotations.
 Open Scope string_scope.
@@ -190,7 +190,7 @@ Definition ops_C12_wide : list opdef := [
      op_spec := fun_spec (fun a => match a with
        | [i] => match as_z i with Some i => vbit (spec_bit_at i) | None => VBad end
        | _ => VBad end) |};
-  {| op_name := "bitmap.Fmt";
+  {| op_name := "bitmap.Fmt/c12";
      op_run := fun a => match a with
        | [sz; sg; sl; xs] => match as_z sz, as_z sg, as_bool sl, as_zs xs with
            | Some sz, Some _, Some sl, Some xs => vwords (Fmt sz sl xs)
